@@ -325,22 +325,24 @@ static spif_obj_t make_tok(void)
 static spif_obj_t make_url(void)
 {
     static const char *U[] = { "http://user:pw@host.example:8080/path/x?q=1", "ftp://host/", "host.only", "/bare/path", "mailto:someone@example.org",
-                               "http://h", "proto://u@h:1/p?x", "file:///etc/passwd", "a:b", "" };
-    int v = (int) vh_below(6);
-    const char *src = U[vh_below(10)];
+                               "http://h", "proto://u@h:1/p?x", "file:///etc/passwd", "a:b", "",
+                               "http://@host:/x?", "http://u:@h/", "//:pw@h" };          /* the last three: components that are present and empty */
+    int v = (int) vh_below(7);
+    const char *src = U[vh_below(13)];
     spif_url_t u;
     if (v == 0) { u = spif_url_new(); vh_op("url_new()"); return (spif_obj_t) u; }
     u = spif_url_new_from_ptr((spif_charptr_t) src); vh_op("url_new_from_ptr(%s) variant %d", vh_qs(src), v);
     if (u && v == 3) spif_url_unparse(u);
     if (u && v == 4) { vh_op("url_set_path + url_set_user, not unparsed"); spif_url_set_path(u, spif_str_new_from_ptr((spif_charptr_t) "/changed")); spif_url_set_user(u, spif_str_new_from_ptr((spif_charptr_t) "someone")); }
+    if (u && v == 6) { vh_op("url_set_query(\"\") + url_set_passwd(\"\"), not unparsed"); spif_url_set_query(u, spif_str_new_from_ptr((spif_charptr_t) "")); spif_url_set_passwd(u, spif_str_new_from_ptr((spif_charptr_t) "")); }
     if (u && v == 5) { vh_op("url_set_port, then unparse"); spif_url_set_port(u, spif_str_new_from_ptr((spif_charptr_t) "8088")); spif_url_unparse(u); }
     return (spif_obj_t) u;
 }
 static spif_obj_t make_regexp(void)
 {
-    static const char *P[] = { "a.c", "^abc$", "[A-Z]+", "x|y", "a", "(a)(b)?c" };
+    static const char *P[] = { "a.c", "^abc$", "[A-Z]+", "x|y", "a", "(a)(b)?c", "(unclosed", "" };      /* the last two: a pattern that does not compile, an empty one -- objects all the same */
     int v = (int) vh_below(4);
-    const char *pat = P[vh_below(6)];
+    const char *pat = P[vh_below(8)];
     spif_regexp_t r;
     if (v == 0) { spif_str_t s = spif_str_new_from_ptr((spif_charptr_t) pat); r = spif_regexp_new_from_str(s); spif_str_del(s); vh_op("regexp_new_from_str(%s)", vh_qs(pat)); }
     else { r = spif_regexp_new_from_ptr((spif_charptr_t) pat); vh_op("regexp_new_from_ptr(%s) variant %d", vh_qs(pat), v); }
